@@ -50,6 +50,10 @@ def gaussian_frechet_distance(
         msg = f"Inputs cov_x and cov_y must have the same shape; got {cov_x.shape} and {cov_y.shape}."
         raise ValueError(msg)
 
+    if cov_x.shape != (mu_x.shape[0], mu_x.shape[0]):
+        msg = f"Inputs cov_x and cov_y must have shape (N, N) for means of shape (N,); got {cov_x.shape} and {mu_x.shape}."
+        raise ValueError(msg)
+
     if not (torch.isfinite(cov_x).all() and torch.isfinite(cov_y).all()):
         msg = "Inputs cov_x and cov_y must be finite (no NaN or infinite entries)."
         raise ValueError(msg)
